@@ -68,6 +68,35 @@ def programs(tier):
     return parts
 
 
+PAIR_VALUES = ['0', '1', '-1', '2', '-3', '255', '1073741823', '-1073741824', '1073741824', '2**31', '-2**31', '2**62',
+               '2**63', '-2**63', '2**64', '2**70', '-2**70', '2**1100', 'True', 'False', '0.0', '-0.0', '1.5', '-2.5',
+               "float('inf')", "float('-inf')", "float('nan')", '1e308', '5e-324', 'IntSub(5)', 'FloatSub(1.5)',
+               'IntSub(0)', 'FloatSub(-0.0)', "'a'", '[1]', 'None', 'Refl()']
+
+
+def typed_pair_programs():
+    """Binary operators whose operand *Python* types are known statically (PyNumberBinop helpers):
+    every (operator, left typing, right typing) is one function, run on all pairs of PAIR_VALUES."""
+    parts = []
+    n = 0
+    conv = {'o': '%s', 'i': 'int(%s)', 'f': 'float(%s)'}
+    for op in ['+', '-', '*', '&', '|', '^']:
+        for t1 in 'oif':
+            for t2 in 'oif':
+                if t1 == t2 == 'o':
+                    continue
+                if op in '&|^' and 'f' in (t1, t2):
+                    continue
+                for inplace in (False, True):
+                    name = 'g%d' % n
+                    n += 1
+                    body = '    x = %s\n    y = %s\n' % (conv[t1] % 'a', conv[t2] % 'b')
+                    body += ('    x %s= y\n    return x\n' % op) if inplace else ('    return x %s y\n' % op)
+                    tag = 'bin%s/%s/%s_%s' % ('ip' if inplace else '', op, t1, t2)
+                    parts.append(e2.Part('def %s(a, b):\n%s' % (name, body), [e2.Func(name, tag, 'pairs_' + t1 + t2)]))
+    return parts
+
+
 def run(ctx):
     parts = programs(ctx.tier)
     inputs = [(e,) for e in support.INTS + support.FLOATS + support.OBJS]
@@ -85,7 +114,31 @@ def run(ctx):
         for i in range(0, len(parts), per):
             mods.append(e2.Mod('c02%s_%d' % (cname, i // per), prelude, parts[i:i + per], {'ops': inputs, 'noseq': noseq, 'smallshift': smallshift},
                                ext='.py', cflags=cflags, use_log=True))
-    st = e2.run_diff(ctx, mods, reach=REACH)
+    def _bomb(a, b):
+        # sequence repetition by a huge count is a memory bomb in CPython itself
+        seq = ("'a'", '[1]')
+        big = lambda e: e not in seq and e[0] in '-0123456789' and 'e' not in e and '.' not in e and abs(eval(e)) > 1000
+        return (a in seq and big(b)) or (b in seq and big(a))
+    pair_inputs = [(a, b) for a in PAIR_VALUES for b in PAIR_VALUES if not _bomb(a, b)]
+    # operands on which the static-typing conversion int()/float() itself fails are not binop cases (and would race
+    # two errors whose order the property does not fix): keep only convertible operands per typing
+    ns = support.namespace()
+
+    def _conv_ok(t, e):
+        if t == 'o':
+            return True
+        try:
+            (int if t == 'i' else float)(eval(e, ns))
+            return True
+        except Exception:
+            return False
+    pair_sets = {'pairs_' + t1 + t2: [(a, b) for a, b in pair_inputs if _conv_ok(t1, a) and _conv_ok(t2, b)]
+                 for t1 in 'oif' for t2 in 'oif'}
+    tparts = typed_pair_programs()
+    for cname, cflags in configs:
+        mods.append(e2.Mod('c02%s_pairs' % cname, prelude, tparts, pair_sets, ext='.py', cflags=cflags,
+                           use_log=True))
+    st = e2.run_diff(ctx, mods, reach=REACH + ['__Pyx__PyNumber_Multiply_float_object', '__Pyx__PyNumber_Add_int_object'])
     cov = {
         'evaluations': st['evaluations'], 'distinct_nontrivial': st['pairs'],
         'rule': 'complete product (op, form, constant) x operand alphabet; a case is counted once per distinct '
@@ -99,6 +152,8 @@ def run(ctx):
                     {'function': parts[-1].src, 'operand': inputs[170][0]}],
         'exhaustive': True,
     }
+    cov['typed_pair_programs'] = len(tparts)
+    cov['typed_pair_inputs'] = len(pair_inputs)
     return cov, ['constants outside the listed boundary set and operands outside the alphabet are not covered']
 
 
